@@ -1,3 +1,4 @@
+use std::io::Write;
 use std::process::ExitCode;
 
 use svgdx::cli::{get_config, run};
@@ -7,7 +8,8 @@ fn main() -> ExitCode {
     // `Result` from `main` prints) lists the elements of a multi-element error
     // in hash-map order, which differs from run to run.
     if let Err(e) = get_config().and_then(run) {
-        eprintln!("Error: {e}");
+        // (not `eprintln!`, which panics when standard error cannot be written)
+        let _ = writeln!(std::io::stderr(), "Error: {e}");
         return ExitCode::FAILURE;
     }
     ExitCode::SUCCESS
